@@ -2,6 +2,7 @@
 (* Trace validation of recorded executions of the real datapath code against Datapath.tla.      *)
 (*   reset       initial state of every namespace                                               *)
 (*   env         level 2: the runtime made a pod namespace / an ENI appeared; dump afterwards    *)
+(*   enigone     level 2: an ENI stand-in was deleted while pods may still use it; dump afterwards *)
 (*   setup_c     level 1: SetupConfig + the nic.Conf values the generators returned; the model   *)
 (*               kernel of Fib.tla applies them                                                  *)
 (*   setup_d     level 2: SetupConfig + Setup's result + dump of every namespace afterwards      *)
@@ -31,6 +32,8 @@ TReset == IsEv("reset") /\ Reset(StateOf(Log[l].dump))
 (* the runtime created a pod namespace / the node attached an ENI: not the datapath's doing *)
 TEnv == IsEv("env") /\ ns' = StateOf(Log[l].dump) /\ UNCHANGED <<live, owned>>
 
+TEniGone == IsEv("enigone") /\ EniGone(Log[l].eni, StateOf(Log[l].dump))
+
 TSetupC == /\ IsEv("setup_c")
            /\ LET e == Log[l] IN
               /\ SetupOk(e.cfg, Applied(ns, e.links, e.confs))
@@ -57,7 +60,7 @@ TRget == /\ IsEv("rget")
          /\ UNCHANGED vars
 
 TInit == Init /\ l = 1
-TNext == TReset \/ TEnv \/ TSetupC \/ TSetupD \/ TTeardownD \/ TRget
+TNext == TReset \/ TEnv \/ TEniGone \/ TSetupC \/ TSetupD \/ TTeardownD \/ TRget
 TSpec == TInit /\ [][TNext]_<<vars, l>>
 
 HighWater == IF l > TLCGet(1) THEN TLCSet(1, l) ELSE TRUE
